@@ -877,6 +877,12 @@ class ConstructedPayloadDecoderBase(AbstractConstructedPayloadDecoder):
 
                 idx += 1
 
+            # constraints of constructed types (e.g. SIZE) are not verified
+            # on assignment
+            inconsistency = asn1Object.isInconsistent
+            if inconsistency:
+                raise inconsistency
+
         yield asn1Object
 
     def indefLenValueDecoder(self, substrate, asn1Spec,
@@ -1115,6 +1121,12 @@ class ConstructedPayloadDecoderBase(AbstractConstructedPayloadDecoder):
                 )
 
                 idx += 1
+
+            # constraints of constructed types (e.g. SIZE) are not verified
+            # on assignment
+            inconsistency = asn1Object.isInconsistent
+            if inconsistency:
+                raise inconsistency
 
         yield asn1Object
 
